@@ -114,7 +114,7 @@ func (e *Env) Tr(x *Expr) TTerm {
 			}
 		}
 		switch x.Name {
-		case "MaxInt", "MinInt":
+		case "MaxInt", "MinInt", "MaxAlloc":
 			return TTerm{S: x.Name, Sort: "Int"}
 		case "wm0":
 			return TTerm{S: e.wm0, Sort: "Int"}
@@ -589,6 +589,28 @@ func (e *Env) call(x *Expr) TTerm {
 		}
 		return TTerm{S: "(" + g.Name + " " + strings.Join(as, " ") + ")", Sort: sortFromName(g.Sort)}
 	}
+	if al, ok := aliases[x.Name]; ok {
+		var as []string
+		for _, t := range a {
+			as = append(as, t.S)
+		}
+		if len(as) == 0 {
+			return TTerm{S: al[0], Sort: al[1]}
+		}
+		return TTerm{S: "(" + al[0] + " " + strings.Join(as, " ") + ")", Sort: al[1]}
+	}
+	switch x.Name {
+	case "bldLen", "bldRunes", "bldOk":
+		if need(1) {
+			fam := map[string]string{"bldLen": "B_len", "bldRunes": "B_runes", "bldOk": "B_ok"}[x.Name]
+			srt := "Int"
+			if fam == "B_ok" {
+				srt = "Bool"
+			}
+			e.g.Family(fam, "(Array Int "+srt+")")
+			return TTerm{S: "(select " + e.famOf(fam) + " " + a[0].S + ")", Sort: srt}
+		}
+	}
 	// raw SMT function with declared signature in rawFuncs
 	if sig, ok := rawFuncs[x.Name]; ok {
 		var as []string
@@ -601,6 +623,27 @@ func (e *Env) call(x *Expr) TTerm {
 		return TTerm{S: "(" + x.Name + " " + strings.Join(as, " ") + ")", Sort: sig}
 	}
 	return e.fail("unknown function %q in %s", x.Name, x)
+}
+
+// aliases: clause-language names for prelude functions (name -> smt symbol, result sort)
+var aliases = map[string][2]string{
+	"decodePost": {"decode.post", "Bool"}, "decodeLastPost": {"decode.lastpost", "Bool"},
+	"strIndex": {"str.index", "Int"}, "strLastIndex": {"str.lastindex", "Int"}, "strHasPrefix": {"str.hasprefix", "Bool"}, "strHasSuffix": {"str.hassuffix", "Bool"},
+	"strToLower": {"str.tolower", "Str"}, "strToUpper": {"str.toupper", "Str"}, "strReplace": {"str.replace", "Str"},
+	"strQuote": {"str.quote", "Str"}, "strItoa": {"str.itoa", "Str"}, "atoiOk": {"atoi.ok", "Bool"}, "atoiVal": {"atoi.val", "Int"},
+	"f64IsInf": {"f64.isinf", "Bool"}, "f64IsNaN": {"f64.isnan", "Bool"}, "f64Floor": {"f64.floor", "F64"}, "f64Ceil": {"f64.ceil", "F64"}, "f64Abs": {"f64.abs", "F64"}, "f64Mod": {"f64.mod", "F64"},
+	"f64Add": {"f64.add", "F64"}, "f64Sub": {"f64.sub", "F64"}, "f64Mul": {"f64.mul", "F64"}, "f64Div": {"f64.div", "F64"}, "f64Neg": {"f64.neg", "F64"}, "f64Of32": {"f64.of32", "F64"},
+	"f64OfInt": {"f64.ofint", "F64"}, "f64IsInt": {"f64.isint", "Bool"}, "f64ToInt": {"f64.toint", "Int"},
+	"decOfInt": {"dec.ofint", "Dec"}, "decOfF64": {"dec.off64", "Dec"}, "decOfF32": {"dec.off32", "Dec"}, "decParseOk": {"dec.parseok", "Bool"}, "decParse": {"dec.parse", "Dec"},
+	"decCompare": {"dec.compare", "Int"}, "decAbs": {"dec.abs", "Dec"}, "decCeil": {"dec.ceil", "Dec"}, "decFloor": {"dec.floor", "Dec"},
+	"decAdd": {"dec.add", "Dec"}, "decSub": {"dec.sub", "Dec"}, "decMul": {"dec.mul", "Dec"}, "decQuo": {"dec.quo", "Dec"},
+	"decQuoRemQ": {"dec.quorem.q", "Dec"}, "decQuoRemR": {"dec.quorem.r", "Dec"}, "decNeg": {"dec.neg", "Dec"}, "decCmp": {"dec.cmp", "Int"},
+	"decEqual": {"dec.equal", "Bool"}, "decIsZero": {"dec.iszero", "Bool"}, "decIsNaN": {"dec.isnan", "Bool"}, "decIsInf": {"dec.isinf", "Bool"}, "decIsFin": {"dec.isfin", "Bool"},
+	"decInt64": {"dec.int64", "Int"}, "decInt64Ok": {"dec.int64ok", "Bool"}, "decStr": {"dec.str", "Str"}, "decIsIntegral": {"dec.isintegral", "Bool"},
+	"decUnmarshal": {"dec.unmarshal", "Dec"}, "decUnmarshalOk": {"dec.unmarshalok", "Bool"}, "decZero": {"dec.zero", "Dec"},
+	"jnumInt64Ok": {"jnum.int64ok", "Bool"}, "jnumInt64": {"jnum.int64", "Int"}, "jnumFloat64Ok": {"jnum.float64ok", "Bool"},
+	"whole": {"str.whole", "Bool"}, "subwindow": {"str.subwindow", "Bool"}, "runesOf": {"str.units", "Int"},
+	"valWF": {"val.wf", "Bool"}, "kindLo": {"kind.lo", "Int"}, "kindHi": {"kind.hi", "Int"},
 }
 
 // rawFuncs: functions defined in the prelude or via //@ smt lines, name -> result sort.
